@@ -37,6 +37,16 @@ pub fn run(c: &Case, rep: &mut Report) {
             }
         }
     }
+    // a second emission after everything that kept code alive was removed: where no function is left, nothing
+    // may be reported
+    if let (Some(out), Some(0)) = (end.get("out.emptied"), end.num("emptied.local_funcs")) {
+        rep.count("second-emissions-without-any-function", 1);
+        let pairs = end.str_or("ct.map.emptied", "").lines().filter(|l| !l.is_empty()).count();
+        let ranges = end.str_or("ct.ranges.emptied", "").lines().filter(|l| !l.is_empty()).count();
+        if pairs != 0 || ranges != 0 {
+            rep.violation(c, "C11/map-of-an-earlier-emission-reported", &format!("after removing every function the module was emitted again: the custom section was handed {} instruction pairs and {} function ranges for a binary without code", pairs, ranges), &[("out.wasm", out)]);
+        }
+    }
     let mut pairs_checked = 0u64;
     let loc_shift: usize = if end.num("cfg").map(|c| c & 128 != 0).unwrap_or(false) { 1_000_000 } else { 0 };
     if loc_shift > 0 {
